@@ -105,7 +105,7 @@ func drawTG(t *rapid.T, fams []string, maxAll int, nSent int) *TGCase {
 	spec.WithSem(t, s)
 	cs := &TGCase{Family: name, Spec: s}
 	cs.Inputs = drawInputs(t, s, maxAll, nSent)
-	cs.Text = s.Render(spec.RenderOpts{})
+	cs.Text = displayText(s)
 	return cs
 }
 
@@ -755,4 +755,13 @@ func rulesCoverNTs(s *spec.Spec) bool {
 		}
 	}
 	return true
+}
+
+// displayText renders the spec for messages and samples with a %union that
+// matches its fields (the driver files carry the real prologue/epilogue).
+func displayText(s *spec.Spec) string {
+	d := s.Clone()
+	d.Fields = s.Fields
+	d.SetLang("go")
+	return d.Render(spec.RenderOpts{})
 }
